@@ -28,7 +28,29 @@ def managed_modes(rate, ch, tier):
 
 
 def vbr_modes(tier):
-    return ['q-0.1', 'q0.3', 'q0.9'] if tier == 'quick' else ['q-0.1', 'q0.0', 'q0.3', 'q0.5', 'q0.9', 'q1.0']
+    """q = packets through the bitrate interface, d = packets straight from vorbis_analysis(vb,&op)"""
+    return ['q-0.1', 'q0.3', 'q0.9', 'd0.3'] if tier == 'quick' else ['q-0.1', 'q0.0', 'q0.3', 'q0.5', 'q0.9', 'q1.0', 'd-0.1', 'd0.3']
+
+
+def exotic_configs(tier):
+    """configurations outside the rate x {1,2,6} x mode grid: other channel counts and the extremes of the supported rate range.
+    Returns [(rate, ch, mode, reduced)]; reduced = use the small boundary set (the 255-channel cases cost ~0.3 s each)"""
+    if tier == 'quick':
+        return [(44100, 3, 'q0.3', True), (44100, 8, 'q0.3', True), (4000, 1, 'q0.3', True), (200000, 1, 'q0.3', True), (8000, 255, 'q0.3', 'tiny')]
+    out = [(r, c, 'q0.3', False) for r in (4000, 7999, 9000, 12000, 15000, 19000, 26000, 40000, 50000, 64000, 96000, 192000, 200000) for c in (1, 2)]
+    out += [(r, c, 'q0.3', False) for r in (8000, 44100) for c in (3, 4, 5, 7, 8, 16)]
+    out += [(r, c, 'q0.3', True) for r in (8000, 44100) for c in (64, 255)]
+    return out
+
+
+def reduced_boundary_set(bs0, bs1, how):
+    s = {0, 1, 2, 3}
+    if how == 'tiny':
+        return sorted(s | {bs0 // 4, bs0 // 2 - 1, bs0 // 2, bs0 // 2 + 1, bs1 + 1})
+    for q, kmax in ((bs0 // 4, 4), (bs1 // 4, 6)):
+        for k in range(1, kmax + 1):
+            s.update((k * q - 1, k * q, k * q + 1))
+    return sorted(s)
 
 
 def chunk_of(c, n):
@@ -107,21 +129,30 @@ class Runner:
         self.bs_seen = {}
         self.samples = []
         self.cut = False
+        self.cut_why = None
+        self.hard = 0           # cases that crashed or ran into the watchdog
+        self.badcase = []
         self.bsinfo = {}        # config -> (bs0, bs1)
 
-    def run_group(self, name, items, batch=48000):
+    def run_group(self, name, items, batch=16384):
         g = self.groups.setdefault(name, {'cases': 0, 'ok': 0, 'planned': 0, 'complete': True})
         g['planned'] += len(items)
         if vlib.SEED:
             random.Random(vlib.SEED).shuffle(items)
-        for o in range(0, len(items), batch):
-            if time.time() > self.deadline:
+        o = 0
+        step = 512      # small first batches: a tree on which cases hang or crash must not cost hours (10 s watchdog per case)
+        while o < len(items):
+            if time.time() > self.deadline or self.hard >= 16 or len(self.fail) >= 20000:
+                # deadline, or the tree is so broken that continuing only burns time (violations are already recorded)
                 g['complete'] = False
                 self.cut = True
+                self.cut_why = 'deadline' if time.time() > self.deadline else 'aborted after %d failing cases (%d crashed/timed out)' % (len(self.fail), self.hard)
                 return
-            part = items[o:o + batch]
+            part = items[o:o + step]
+            o += step
+            step = min(batch, step * 8)
             lines = [x[0] for x in part]
-            res = vlib.run_cases(self.exe, lines, tag='c04')
+            res = vlib.run_cases(self.exe, lines, ('--timeout', '10'), tag='c04')
             # a worker that died (or whose predecessor timed out) leaves DIED/None: re-run those alone once
             redo = [i for i, r in enumerate(res) if r is None or r.startswith('DIED')]
             for i in redo[:200]:
@@ -138,6 +169,11 @@ class Runner:
         if st == 'setupfail':
             self.setupfail[cfg] = f.get('rc')
             return
+        if st == 'BADCASE':
+            self.badcase.append(line)
+            return
+        if st in ('TIMEOUT', 'DIED', 'NOOUTPUT'):
+            self.hard += 1
         chk.cov['evaluations'] += 1
         g['cases'] += 1
         bs0 = bs1 = 0
@@ -180,73 +216,86 @@ class Runner:
             self.samples.append({'case': line, 'result': r})
 
 
-def plan(tier, probe_bs):
-    """Returns ordered list of (group name, items). probe_bs: config -> (bs0,bs1) for configs that set up."""
-    G = []
-    q = tier == 'quick'
+def plan(tier, probe_bs, reduced={}):
+    """Returns the ordered list of (group name, items).  probe_bs: config -> (bs0, bs1) for the configurations that set up.
+    thorough = the quick plan (with larger boundary sets) followed by the extra groups, most valuable first, so that a deadline cut loses the tail only."""
     A8 = (8000, 1, 'q0.3')
     B16 = (16000, 1, 'q0.3')
     C44 = (44100, 1, 'q0.3')
     C44S = (44100, 2, 'q0.3')
     NMAX = {A8: 5200, B16: 4200, C44: 9300, C44S: 9300}
-    if q:
-        G.append(('sweep_8k_mono_512_512', sweep('sweep_8k_mono_512_512', *A8, NMAX[A8], [('whole', 'sine', 'nf3'), ('u1024', 'noise', 'n'), ('u511', 'sil', 'n'), ('u64', 'dc', 'n'), ('u7', 'trn1300', 'n')])))
-        G.append(('sweep_16k_mono_512_1024', sweep('sweep_16k_mono_512_1024', *B16, NMAX[B16], [('whole', 'sine', 'nf3'), ('u1024', 'trn1300', 'n'), ('u511', 'noise', 'n'), ('u64', 'dc', 'n')])))
-        G.append(('sweep_44k_mono_256_2048', sweep('sweep_44k_mono_256_2048', *C44, NMAX[C44], [('whole', 'trn3000', 'nf3'), ('u1024', 'sine', 'n'), ('u511', 'noise', 'n')])))
-        G.append(('sweep_44k_stereo_256_2048', sweep('sweep_44k_stereo_256_2048', *C44S, NMAX[C44S], [('u1024', 'trn1700', 'n')])))
-    else:
-        sigs = lambda t: ['sil', 'dc', 'sine', 'noise', t]
-        for name, cfg, t in (('sweep_8k_mono_512_512', A8, 'trn1300'), ('sweep_16k_mono_512_1024', B16, 'trn1300'), ('sweep_44k_mono_256_2048', C44, 'trn3000')):
-            combos = [('whole', 'sine', 'nf3')] + [(c, s, 'n') for c in CHUNKS for s in sigs(t) if not (c == 'whole' and s == 'sine')]
-            G.append((name, sweep(name, *cfg, NMAX[cfg], combos)))
-        G.append(('sweep_44k_stereo_256_2048', sweep('sweep_44k_stereo_256_2048', *C44S, NMAX[C44S], [(c, s, 'n') for c in CHUNKS for s in ('noise', 'trn1700')])))
-    # pieces of one sample
-    if q:
-        G.append(('onesample_pieces', sweep('onesample_pieces', *A8, 600, [('u1', 'noise', 'n')])))
-    else:
-        it = []
-        for s in ['sil', 'dc', 'sine', 'noise', 'trn300']:
-            it += sweep('onesample_pieces', *A8, 600, [('u1', s, 'n')])
-        it += sweep('onesample_pieces', *B16, 1100, [('u1', 'noise', 'n')])
-        it += [case(*C44, n, 'u1', 'trn900', 'n', 'onesample_pieces') for n in range(2030, 2120)]
-        G.append(('onesample_pieces', it))
-    # every 2-part split
-    if q:
-        it = splits('splits', *A8, list(range(2, 129)) + [511, 512, 513, 514, 515, 640, 768, 769, 1024, 1025, 1100], 'noise')
-        it += splits('splits', *B16, [1023, 1024, 1025, 1026, 1100], 'sine')
-        it += splits('splits', *C44, [2049], 'trn900')
-    else:
-        it = splits('splits', *A8, range(2, 1101), 'noise')
-        it += splits('splits', *B16, list(range(2, 301)) + list(range(1000, 1101)), 'sine')
-        it += splits('splits', *C44, range(2040, 2061), 'trn900')
-        it += splits('splits', *C44S, [2049, 2305], 'noise', 'nf3')
-    G.append(('splits', it))
-    # boundary sets for every configuration that sets up (probe_bs)
+    QCOMBOS = {
+        'sweep_8k_mono_512_512': (A8, [('whole', 'sine', 'nf3'), ('u1024', 'noise', 'n'), ('u511', 'sil', 'n'), ('u64', 'dc', 'n'), ('u7', 'trn1300', 'n')]),
+        'sweep_16k_mono_512_1024': (B16, [('whole', 'sine', 'nf3'), ('u1024', 'trn1300', 'n'), ('u511', 'noise', 'n'), ('u64', 'dc', 'n'), ('r333', 'trn700', 'n')]),
+        'sweep_44k_mono_256_2048': (C44, [('whole', 'trn3000', 'nf3'), ('u1024', 'sine', 'n'), ('u511', 'noise', 'n')]),
+        'sweep_44k_stereo_256_2048': (C44S, [('u1024', 'trn1700', 'n')]),
+    }
+    G = []
+    # ---- boundary sets for every configuration that sets up
     it = []
     for cfg, (bs0, bs1) in sorted(probe_bs.items()):
         rate, ch, mode = cfg
-        B = boundary_set(bs0, bs1, tier)
-        for n in B:
+        for n in (reduced_boundary_set(bs0, bs1, reduced[cfg]) if reduced.get(cfg) else boundary_set(bs0, bs1, tier)):
             it.append(case(rate, ch, mode, n, 'u1024', 'noise', 'n', 'boundary'))
             it.append(case(rate, ch, mode, n, 'u511', 'imp%d' % max(0, n - bs1 // 2 - bs0), 'nf3', 'boundary'))
-            if not q:
+            if tier != 'quick':
                 it.append(case(rate, ch, mode, n, 'u7', 'sine', 'n', 'boundary'))
     G.append(('boundary', it))
-    if not q:
-        # impulse at every 64th position (256/2048: where the short blocks sit relative to the end of input)
-        it = []
-        for cfg in (C44, C44S):
-            bs0, bs1 = probe_bs.get(cfg, (256, 2048))
-            for n in [k * (bs1 // 4) + d for k in range(1, 19) for d in (-1, 0, 1)]:
-                for p in range(0, n, 64):
-                    it.append(case(*cfg, n, 'u1024', 'imp%d' % p, 'n', 'impulse_positions'))
-        G.append(('impulse_positions', it))
-        # more full sweeps: the two other block-size pairs, managed mode, 5.1
-        G.append(('sweep_16k_mono_lowq_1024_1024', sweep('sweep_16k_mono_lowq_1024_1024', 16000, 1, 'q-0.1', 4200, [('whole', 'sine', 'nf3'), ('u1024', 'noise', 'n'), ('u511', 'trn3000', 'n')])))
-        G.append(('sweep_44k_mono_lowq_512_4096', sweep('sweep_44k_mono_lowq_512_4096', 44100, 1, 'q-0.1', 9300, [('whole', 'sine', 'nf3'), ('u1024', 'noise', 'n'), ('u511', 'trn3000', 'n')])))
-        G.append(('sweep_44k_stereo_managed', sweep('sweep_44k_stereo_managed', 44100, 2, 'm-1,128000,-1', 9300, [('u1024', 'noise', 'n'), ('u511', 'trn3000', 'n')])))
-        G.append(('sweep_44k_stereo_managed_hard', sweep('sweep_44k_stereo_managed_hard', 44100, 2, 'm160000,128000,96000', 9300, [('u1024', 'trn3000', 'n')])))
-        G.append(('sweep_44k_5point1', sweep('sweep_44k_5point1', 44100, 6, 'q0.3', 9300, [('u1024', 'noise', 'n')])))
+    # ---- full N sweeps, a few chunkings (both tiers)
+    for name, (cfg, combos) in QCOMBOS.items():
+        G.append((name, sweep(name, *cfg, NMAX[cfg], combos)))
+    # ---- pieces of one sample
+    G.append(('onesample_pieces', sweep('onesample_pieces', *A8, 600, [('u1', 'noise', 'n')])))
+    # ---- every 2-part split (a, N-a)
+    it = splits('splits', *A8, list(range(2, 129)) + [511, 512, 513, 514, 515, 640, 768, 769, 1024, 1025, 1100], 'noise')
+    it += splits('splits', *B16, [1023, 1024, 1025, 1026, 1100], 'sine')
+    it += splits('splits', *C44, [2049], 'trn900')
+    G.append(('splits', it))
+    if tier == 'quick':
+        return G
+    # ---- thorough only
+    seen = set(x[0] for _, items in G for x in items)
+
+    def fresh(items):
+        out = [x for x in items if x[0] not in seen]
+        seen.update(x[0] for x in out)
+        return out
+    # full sweeps of the other block-size pairs, managed mode, the direct packet interface, 5.1
+    for name, cfg, nmax, combos in (
+            ('sweep_16k_mono_lowq_1024_1024', (16000, 1, 'q-0.1'), 4200, [('whole', 'sine', 'nf3'), ('u1024', 'noise', 'n'), ('u511', 'trn3000', 'n')]),
+            ('sweep_44k_mono_lowq_512_4096', (44100, 1, 'q-0.1'), 9300, [('whole', 'sine', 'nf3'), ('u1024', 'noise', 'n'), ('u511', 'trn3000', 'n')]),
+            ('sweep_44k_stereo_managed', (44100, 2, 'm-1,128000,-1'), 9300, [('u1024', 'noise', 'n'), ('u511', 'trn3000', 'n')]),
+            ('sweep_44k_stereo_managed_hard', (44100, 2, 'm160000,128000,96000'), 9300, [('u1024', 'trn3000', 'n')]),
+            ('sweep_8k_mono_direct', (8000, 1, 'd0.3'), 5200, [('u1024', 'noise', 'nf3')]),
+            ('sweep_44k_stereo_direct', (44100, 2, 'd0.3'), 9300, [('u511', 'trn3000', 'n')]),
+            ('sweep_44k_5point1', (44100, 6, 'q0.3'), 9300, [('u1024', 'noise', 'n')])):
+        G.append((name, fresh(sweep(name, *cfg, nmax, combos))))
+    # impulse at every 64th position (256/2048: where the short blocks sit relative to the end of input)
+    it = []
+    for cfg in (C44, C44S):
+        bs0, bs1 = probe_bs.get(cfg, (256, 2048))
+        for n in [k * (bs1 // 4) + d for k in range(1, 19) for d in (-1, 0, 1)]:
+            for p in range(0, n, 64):
+                it.append(case(*cfg, n, 'u1024', 'imp%d' % p, 'n', 'impulse_positions'))
+    G.append(('impulse_positions', fresh(it)))
+    it = []
+    for s in ['sil', 'dc', 'sine', 'noise', 'trn300']:
+        it += sweep('onesample_pieces_more', *A8, 600, [('u1', s, 'n')])
+    it += sweep('onesample_pieces_more', *B16, 1100, [('u1', 'noise', 'n')])
+    it += [case(*C44, n, 'u1', 'trn900', 'n', 'onesample_pieces_more') for n in range(2030, 2120)]
+    G.append(('onesample_pieces_more', fresh(it)))
+    # every 2-part split for every N <= 1100 (8 kHz), and around the long block size elsewhere
+    it = splits('splits_all', *A8, range(2, 1101), 'noise')
+    it += splits('splits_all', *B16, list(range(2, 301)) + list(range(1000, 1101)), 'sine')
+    it += splits('splits_all', *C44, range(2040, 2061), 'trn900')
+    it += splits('splits_all', *C44S, [2049, 2305], 'noise', 'nf3')
+    G.append(('splits_all', fresh(it)))
+    # all chunkings x 5 signals on the full N sweeps
+    sigs = lambda t: ['sil', 'dc', 'sine', 'noise', t]
+    for name, cfg, t in (('sweep_8k_mono_512_512', A8, 'trn1300'), ('sweep_16k_mono_512_1024', B16, 'trn1300'), ('sweep_44k_mono_256_2048', C44, 'trn3000')):
+        combos = [(c, s, 'n') for c in CHUNKS for s in sigs(t)] + [('r333', t, 'n'), ('r1000', 'noise', 'n')]
+        G.append((name + '_all_chunkings_x_signals', fresh(sweep(name + '_all_chunkings_x_signals', *cfg, NMAX[cfg], combos))))
+    G.append(('sweep_44k_stereo_256_2048_all_chunkings', fresh(sweep('sweep_44k_stereo_256_2048_all_chunkings', *C44S, NMAX[C44S], [(c, s, 'n') for c in CHUNKS for s in ('noise', 'trn1700')]))))
     return G
 
 
@@ -255,7 +304,8 @@ def run(tier):
     vlib.build('plain')
     exe = vlib.harness('plain', HARNESS)
     t0 = time.time()
-    deadline = t0 + (150 if tier == 'quick' else 21 * 60)
+    # internal deadline; C04_DEADLINE_S overrides it (only to measure a complete run on an overloaded machine)
+    deadline = t0 + float(os.environ.get('C04_DEADLINE_S') or (170 if tier == 'quick' else 21 * 60))
     R = Runner(chk, exe, deadline)
     # phase 1: probe every configuration with N=0 (this is also the N=0 member of every configuration)
     rates = RATES_Q if tier == 'quick' else RATES_T
@@ -264,13 +314,17 @@ def run(tier):
         for ch in CHANS:
             for mode in vbr_modes(tier) + managed_modes(rate, ch, tier):
                 probe.append(case(rate, ch, mode, 0, 'u1', 'sil', 'nf3', 'probe_N0'))
+    reduced = {}
+    for rate, ch, mode, red in exotic_configs(tier):
+        probe.append(case(rate, ch, mode, 0, 'u1', 'sil', 'nf3', 'probe_N0'))
+        reduced[(rate, ch, mode)] = red
     R.run_group('probe_N0', probe)
     probe_bs = dict(R.bsinfo)
     for n, _, line, m, r, _, _ in R.fail:
         cfg = (m['rate'], m['ch'], m['mode'])
         probe_bs.pop(cfg, None)     # a configuration failing at N=0 is already a violation; no boundary set for it
     # phase 2
-    groups = plan(tier, probe_bs)
+    groups = plan(tier, probe_bs, reduced)
     planned = sum(len(it) for _, it in groups) + len(probe)
     for name, items in groups:
         if time.time() > deadline:
@@ -288,12 +342,13 @@ def run(tier):
                 what += ':' + parts[2]
         else:
             what = st.lower()   # died / timeout / nooutput
-        key = f"{what}:bs{bs0}_{bs1}:{'managed' if m['mode'][0] == 'm' else 'vbr'}:{nclass(n, bs0, bs1) if bs0 else 'N?'}"
+        key = f"{what}:bs{bs0}_{bs1}:{ {'m': 'managed', 'q': 'vbr', 'd': 'vbr_direct'}[m['mode'][0]] }:{nclass(n, bs0, bs1) if bs0 else 'N?'}"
         chk.violation(key, f"{m['rate']} Hz {m['ch']} ch {m['mode']} N={n} chunking {m['chunk']} signal {m['sig']} layouts {m['lay']}: expected {n} samples/granule; executor says: {r[:300]}", {'case': line})
     sweeps_complete = {k: v for k, v in R.groups.items() if k.startswith('sweep_')}
     chk.cov.update({
         'distinct_nontrivial': len(R.sigs),
         'exhaustive': not R.cut,
+        'cut_reason': R.cut_why,
         'planned_cases': planned,
         'groups': R.groups,
         'configs_passing': len(R.cfg_ok),
@@ -303,7 +358,7 @@ def run(tier):
         'stats': R.stat,
         'rule': 'ENUM over (rate, channels, mode, N, piece schedule, signal, page layouts): every N in 0..Nmax for the sweep configs (8 kHz mono 512/512 Nmax 5200, 16 kHz mono 512/1024 Nmax 4200, '
                 '44.1 kHz mono+stereo 256/2048 Nmax 9300; thorough adds 1024/1024, 512/4096, managed and 5.1 sweeps and all chunkings x 5 signals), every 2-part split (a,N-a) for the listed N, '
-                'one-sample pieces, boundary sets of N around multiples of short/4 and long/4 for every (rate x {1,2,6} ch x VBR/managed mode) configuration that sets up; each case: real encoder -> libogg pages in memory '
+                'one-sample pieces, boundary sets of N around multiples of short/4 and long/4 for every (rate x {1,2,6} ch x VBR/managed/direct mode) configuration that sets up plus other channel counts (3..255) and the extremes of the rate range (4000..200000 Hz); each case: real encoder -> libogg pages in memory '
                 '(layouts n=pageout, f=flush per packet, 3=flush per 3 packets) -> packet-API decode, vorbisfile seekable, vorbisfile streaming; oracle = construction (N). '
                 'distinct_nontrivial = number of distinct (config, N mod long/4, chunking class, signal kind) among passing cases with N>0',
         'samples': R.samples,
@@ -316,13 +371,20 @@ def run(tier):
         'alignment/quality of the decoded audio is C06; this check only counts samples and reads positions',
     ]
     s = R.stat
-    chk.guard(set(R.cfg_ok) <= R.cfg_n0 and len(R.cfg_n0) >= 20, 'N=0 passed for every configuration that sets up')
-    chk.guard(s['below_short_block_ok'] >= 100, '0<N<one short block covered')
-    chk.guard(s['mixed_blocks_44k_impulse_ok'] >= 50, 'streams with long blocks and short blocks following long blocks (44.1 kHz impulse signals) covered')
-    chk.guard(s['managed_ok'] >= 100, 'bitrate-managed encodes covered')
-    chk.guard(all(R.ch_ok.get(c, 0) >= 50 for c in CHANS), 'channel counts 1, 2 and 6 covered')
-    chk.guard(len(R.bs_seen) >= 4, 'at least 4 distinct block-size pairs covered')
-    chk.guard(s['multi_audio_page_natural_ok'] >= 1, 'at least one natural-layout stream with more than one audio page')
+    chk.guard(not R.badcase, 'executor accepted every generated case line (%s)' % R.badcase[:2])
+    done = lambda name: R.groups.get(name, {}).get('complete') and R.groups[name]['cases'] == R.groups[name]['planned']
+    # coverage facts are demanded of the groups that ran to completion (a deadline cut is reported as exhaustive:false, not as a broken check)
+    if done('probe_N0'):
+        chk.guard(set(R.cfg_ok) <= R.cfg_n0 and len(R.cfg_n0) >= 20, 'N=0 passed for every configuration that sets up')
+    if done('boundary'):
+        chk.guard(s['below_short_block_ok'] >= 100, '0<N<one short block covered')
+        chk.guard(s['managed_ok'] >= 100, 'bitrate-managed encodes covered')
+        chk.guard(all(R.ch_ok.get(c, 0) >= 50 for c in CHANS) and R.ch_ok.get(255, 0) >= 5, 'channel counts 1, 2, 6 (and 255) covered')
+        chk.guard(len(R.bs_seen) >= 4, 'at least 4 distinct block-size pairs covered')
+        chk.guard(s['multi_audio_page_natural_ok'] >= 1, 'at least one natural-layout stream with more than one audio page')
+        chk.guard(any(c[2][0] == 'd' for c in R.cfg_ok), 'direct vorbis_analysis(vb,&op) packet interface covered')
+    if done('sweep_44k_mono_256_2048'):
+        chk.guard(s['mixed_blocks_44k_impulse_ok'] >= 50, 'streams with long blocks and short blocks following long blocks (44.1 kHz impulse signals) covered')
     for name, g in sweeps_complete.items():
         if g['complete']:
             chk.guard(g['cases'] == g['planned'], f'{name}: every planned N executed ({g["planned"]} cases)')
